@@ -232,6 +232,27 @@ type Stub struct {
 	// caller does whose deadline passes or who goes away in the middle of a call.
 	inflight context.CancelFunc
 	gaveUp   bool
+	// Answers records, in order, what every push-pull call of this stub returned to its caller (canonical text).
+	Answers []map[string]string
+}
+
+// canonAnswer renders a push-pull answer, per datatype key, without anything that may legitimately differ between two
+// runs (the packs of one answer arrive in the order their handlers finish: not part of the answer's meaning).
+func canonAnswer(out *model.PushPullMessage, err error) map[string]string {
+	if err != nil {
+		return map[string]string{"": "rpc-error"}
+	}
+	packs := map[string]string{}
+	for _, p := range out.PushPullPacks {
+		var sb strings.Builder
+		fmt.Fprintf(&sb, "[%s|%s|opt%d|cp%d:%d|era%d|%v|", p.Key, p.DUID, p.Option, p.CheckPoint.GetSseq(), p.CheckPoint.GetCseq(), p.Era, p.Type)
+		for _, op := range p.Operations {
+			fmt.Fprintf(&sb, "(%v %d:%d:%s:%d %s)", op.OpType, op.ID.GetEra(), op.ID.GetLamport(), op.ID.GetCUID(), op.ID.GetSeq(), string(op.Body))
+		}
+		sb.WriteString("]")
+		packs[p.Key] += sb.String()
+	}
+	return packs
 }
 
 // Inflight tells whether a push-pull call of this stub is being served and has not been given up yet.
@@ -307,6 +328,9 @@ func (s *Stub) ProcessPushPull(ctx context.Context, in *model.PushPullMessage, _
 		}
 		out, err = call()
 	}
+	s.mu.Lock()
+	s.Answers = append(s.Answers, canonAnswer(out, err))
+	s.mu.Unlock()
 	s.Sched.Gate("rpc.response:pushpull:" + s.Name)
 	if fault == RPCDropResponse {
 		return nil, errDropped
